@@ -208,7 +208,7 @@ def run(chk):
             corpus.append((o["source"], None, o.get("known")))
     # multi-declarator declarations with annotations and modifiers: every declarator carries the declaration's type, annotations,
     # tracked and final flags (compared with the parser model's tree)
-    for anns in ("", "@tracked ", "@tracked @tracked ", "final ", "@tracked final "):
+    for anns in ("", "@tracked ", "@tracked @tracked ", "final ", "@tracked final ", "final @tracked ", "final @tracked @tracked "):
         for ty in ("qubit", "qubit[2]", "int", "bit", "Foo"):
             for names in ("a, b", "a, b, c", "a"):
                 for tail in ("", " measure a;", " int z = 1;"):
